@@ -72,8 +72,14 @@ pub struct Obs {
     /// structural key for distinctness; default = hash of the case JSON
     pub key: Option<u64>,
     pub sample: Option<J>,
+    /// how many executions of the code under test this case stands for (fault
+    /// instances, enumerated schedules, …); default 1
+    pub weight: Option<u64>,
 }
 impl Obs {
+    pub fn weight(&mut self, n: u64) {
+        self.weight = Some(n.max(1));
+    }
     pub fn label(&mut self, s: impl Into<String>) {
         self.labels.push(s.into());
     }
@@ -128,6 +134,7 @@ pub fn hash_json(j: &J) -> u64 {
 #[derive(Default)]
 pub struct CheckStats {
     pub evaluations: u64,
+    pub cases: u64,
     pub nontrivial_keys: HashSet<u64>,
     pub labels: BTreeMap<String, u64>,
     pub samples: Vec<J>,
@@ -209,7 +216,8 @@ impl RunCtx {
     fn record(&self, check: &str, case_json: &J, obs: Obs, verdict: &Verdict) {
         let mut g = self.stats.lock().unwrap();
         let st = g.entry(check.to_string()).or_default();
-        st.evaluations += 1;
+        st.evaluations += obs.weight.unwrap_or(1);
+        st.cases += 1;
         for l in obs.labels {
             *st.labels.entry(l).or_insert(0) += 1;
         }
@@ -626,7 +634,7 @@ pub fn write_evidence(cx: &RunCtx, level: &str, assumptions: &[&str], replayed: 
         for s in &st.samples {
             samples.push(json!({"check": name, "case": s}));
         }
-        if !(st.exhaustive_done && st.evaluations == st.exhaustive_cases) {
+        if !(st.exhaustive_done && st.cases == st.exhaustive_cases) {
             exhaustive_all = false;
         }
         excluded_known += st.known_hits.values().sum::<u64>();
@@ -634,6 +642,7 @@ pub fn write_evidence(cx: &RunCtx, level: &str, assumptions: &[&str], replayed: 
             name.clone(),
             json!({
                 "evaluations": st.evaluations,
+                "cases": st.cases,
                 "distinct_nontrivial": st.nontrivial_keys.len(),
                 "discarded": st.discards,
                 "exhaustive_cases": st.exhaustive_cases,
